@@ -74,6 +74,8 @@ def run(ctx):
         ctx.hit("nondeterministic-suggestions", outs[0][1][-300:], dict(kind="impl-counterexample", tool="c02suggest", seed=ctx.seed, output=outs[0][1][-2000:]))
     ctx.cov["evaluations"] += n * 4
     ctx.add_distribution({"suggest.requests": n * 4})
+    # the optional embedding layer: query embeddings and semantic scores repeated (monitor class nondeterministic-embedding)
+    ctx.correspond("embed", 150 if quick else 3000, name="embed-sem", args={"stream": "sem"}, shrink=False, seed_offset=41, hit_props=["C02"])
     # a database of the shipped size with exactly tied entries, NLP searches repeated and re-loaded
     outs = []
     for k in range(2):
